@@ -34,11 +34,30 @@ type respPlan struct {
 	Status      int  `json:"status,omitempty"`       // 0 normal, 1 force 200, 2 force 401
 	DropBearer  bool `json:"drop_bearer,omitempty"`
 	SigAlways   bool `json:"sig_always,omitempty"` // also add a (planned) sig where an honest server sends none
+	// Tell: the response ALSO carries, as parameters, the values the signature it sends was actually
+	// made for (bit 1 challenge-server, bit 2 client-public-key, bit 4 hostname): what an impostor
+	// does that replays a signature of an earlier session and hopes the client takes the signed
+	// context from the header instead of from its own state. An honest server sends none of them.
+	Tell      int     `json:"tell,omitempty"`
+	TellFront bool    `json:"tell_front,omitempty"`
+	Ops       []hdrOp `json:"ops,omitempty"` // parameter-level operators on the finished header
 }
+
+// hdrOp is one parameter-level operator applied to the finished response header value.
+type hdrOp struct {
+	Op    int  `json:"op"`  // 0 add, 1 drop, 2 duplicate, 3 swap (replace the value; add when absent)
+	K     int  `json:"k"`   // index into hdrParamNames
+	Src   int  `json:"src"` // donor of add / swap: 0 an earlier session of this client (either direction), 1 this session (reflection), 2 fresh
+	Front bool `json:"front,omitempty"`
+}
+
+// every parameter name of the scheme plus the two names that exist only inside signed data
+var hdrParamNames = []string{"challenge-server", "challenge-client", "opaque", "public-key", "sig", "bearer", "hostname", "client-public-key"}
+var hdrOpNames = []string{"add", "drop", "dup", "swap"}
 
 func (p respPlan) honest() bool {
 	return (p.Signer == 0 && p.Claim == 0 || p.Signer == 1 && p.Claim == 1) && p.Chal == 0 && p.CKey == 0 && p.HostS == 0 && (p.SigMut == 0 || p.SigMut == 4) &&
-		p.Place == 0 && p.Status == 0 && !p.DropBearer
+		p.Place == 0 && p.Status == 0 && !p.DropBearer && p.Tell == 0 && len(p.Ops) == 0
 }
 
 type callPlan struct {
@@ -87,6 +106,26 @@ func drawRespPlan(rt *rapid.T) respPlan {
 	p.RefuseCI = rapid.IntRange(0, 3).Draw(rt, "refuseci") == 0
 	p.RejectToken = rapid.IntRange(0, 1).Draw(rt, "rejecttoken") == 0
 	p.SigAlways = rapid.IntRange(0, 3).Draw(rt, "sigalways") == 0
+	// A signature made for another context (stale / foreign challenge, other client key, other
+	// hostname, replayed signature) is accompanied by its context half of the time, an ordinary
+	// one rarely.
+	tellOdds := []int{0, 0, 0, 0, 0, 0, 0, 1}
+	if p.Chal != 0 || p.CKey != 0 || p.HostS != 0 || p.SigMut == 3 {
+		tellOdds = []int{0, 1}
+	}
+	if rapid.SampledFrom(tellOdds).Draw(rt, "tell") == 1 {
+		p.Tell = rapid.IntRange(1, 7).Draw(rt, "tellmask")
+		p.TellFront = rapid.Bool().Draw(rt, "tellfront")
+	}
+	nops := rapid.SampledFrom([]int{0, 0, 0, 0, 0, 1, 1, 2}).Draw(rt, "nops")
+	for i := 0; i < nops; i++ {
+		p.Ops = append(p.Ops, hdrOp{
+			Op:    rapid.IntRange(0, len(hdrOpNames)-1).Draw(rt, "op"),
+			K:     rapid.IntRange(0, len(hdrParamNames)-1).Draw(rt, "opk"),
+			Src:   rapid.IntRange(0, 2).Draw(rt, "opsrc"),
+			Front: rapid.Bool().Draw(rt, "opfront"),
+		})
+	}
 	return p
 }
 
@@ -144,14 +183,97 @@ type evilServer struct {
 	prevChal   []string  // challenges of earlier calls
 	prevSigs   []sentSig // signatures of earlier calls
 	ctr        int
+
+	made    map[string]sentSig  // every signature the harness ever produced, by its bytes (provenance)
+	lastSig *sentSig            // the signature produced for the response being built
+	cur     map[string][]string // parameter values seen on the wire in this call, either direction
+	donors  map[string][]string // the same of earlier calls (sessions) of this client
+	labels  []string
+}
+
+func addDonor(m map[string][]string, k, v string) {
+	for _, x := range m[k] {
+		if x == v {
+			return
+		}
+	}
+	m[k] = append(m[k], v)
 }
 
 func (e *evilServer) reset(host string, plan []respPlan) {
 	e.prevChal = append(e.prevChal, e.challenges...)
 	e.prevSigs = append(e.prevSigs, e.sigs...)
+	if e.donors == nil {
+		e.donors = map[string][]string{}
+		e.made = map[string]sentSig{}
+		addDonor(e.donors, "client-public-key", b64(e.otherKey))
+		for _, h := range hostNames {
+			addDonor(e.donors, "hostname", h)
+		}
+	}
+	for _, k := range hdrParamNames {
+		for _, v := range e.cur[k] {
+			addDonor(e.donors, k, v)
+		}
+	}
+	e.cur = map[string][]string{}
+	addDonor(e.cur, "hostname", host)
+	addDonor(e.cur, "client-public-key", b64(e.cpub))
 	e.host, e.plan, e.n = host, plan, 0
-	e.challenges, e.sigs, e.keysSent, e.kinds = nil, nil, nil, nil
+	e.challenges, e.sigs, e.keysSent, e.kinds, e.labels = nil, nil, nil, nil, nil
 	e.firstBear, e.firstCode = false, 0
+}
+
+// donor picks the value an add / swap operator uses for parameter name.
+func (e *evilServer) donor(name string, src int, rp []param) string {
+	switch src {
+	case 0:
+		if d := e.donors[name]; len(d) > 0 {
+			return d[e.ctr%len(d)]
+		}
+	case 1:
+		if v, ok := getParam(rp, name); ok {
+			return v
+		}
+		if d := e.cur[name]; len(d) > 0 {
+			return d[e.ctr%len(d)]
+		}
+	}
+	return b64([]byte("x-" + e.fresh(name)))
+}
+
+// applyOps applies the parameter-level operators to the finished parameter list.
+func (e *evilServer) applyOps(ps []param, ops []hdrOp, rp []param) []param {
+	put := func(front bool, x param) {
+		if front {
+			ps = append([]param{x}, ps...)
+		} else {
+			ps = append(ps, x)
+		}
+	}
+	for _, op := range ops {
+		name := hdrParamNames[op.K]
+		e.labels = append(e.labels, "hdrop:"+hdrOpNames[op.Op]+":"+name)
+		switch op.Op {
+		case 0:
+			put(op.Front, param{name, e.donor(name, op.Src, rp)})
+		case 1:
+			ps = delParam(ps, name)
+		case 2:
+			if i := idxParam(ps, name); i >= 0 {
+				put(op.Front, ps[i])
+			}
+		default:
+			v := e.donor(name, op.Src, rp)
+			if i := idxParam(ps, name); i >= 0 {
+				ps = cloneParams(ps)
+				ps[i].V = v
+			} else {
+				put(op.Front, param{name, v})
+			}
+		}
+	}
+	return ps
 }
 
 func (e *evilServer) fresh(tag string) string {
@@ -163,6 +285,7 @@ func (e *evilServer) RoundTrip(req *http.Request) (*http.Response, error) {
 	p := e.plan[min(e.n, len(e.plan)-1)]
 	first := e.n == 0
 	e.n++
+	e.lastSig = nil
 	if req.Host != e.host {
 		e.f.Fatalf("harness: request Host %q differs from the call's host %q", req.Host, e.host)
 	}
@@ -177,6 +300,9 @@ func (e *evilServer) RoundTrip(req *http.Request) (*http.Response, error) {
 	}
 	if first {
 		e.firstBear = hasBearer
+	}
+	for _, x := range rp {
+		addDonor(e.cur, x.K, x.V)
 	}
 
 	claim := func() []param {
@@ -285,7 +411,8 @@ func (e *evilServer) RoundTrip(req *http.Request) (*http.Response, error) {
 		case 4:
 			text = text[:len(text)/2] + "\n" + text[len(text)/2:]
 		}
-		e.sigs = append(e.sigs, s)
+		e.made[string(s.raw)] = s
+		e.lastSig = &s
 		return []param{{"sig", text}}
 	}
 
@@ -342,6 +469,53 @@ func (e *evilServer) RoundTrip(req *http.Request) (*http.Response, error) {
 	}
 	h := http.Header{}
 	if hdrName != "" {
+		if s := e.lastSig; s != nil && p.Tell != 0 {
+			// state the context the signature was made for
+			var tell []param
+			if p.Tell&1 != 0 {
+				tell = append(tell, param{"challenge-server", s.chal})
+				e.labels = append(e.labels, "tell:challenge-server")
+				if !hasCS || s.chal != cs {
+					e.labels = append(e.labels, "tell:challenge-server-not-the-requests")
+				}
+			}
+			if p.Tell&2 != 0 {
+				tell = append(tell, param{"client-public-key", b64([]byte(s.ckey))})
+				e.labels = append(e.labels, "tell:client-public-key")
+			}
+			if p.Tell&4 != 0 && !s.noHost {
+				tell = append(tell, param{"hostname", s.host})
+				e.labels = append(e.labels, "tell:hostname")
+			}
+			if p.TellFront {
+				ps = append(tell, ps...)
+			} else {
+				ps = append(ps, tell...)
+			}
+		}
+		ps = e.applyOps(ps, p.Ops, rp)
+		// The oracle's tables are filled from what is actually on the wire: every sig value of the
+		// final header (with the harness' provenance record when it made those bytes, as "unknown"
+		// otherwise) and every public-key value.
+		for _, x := range ps {
+			addDonor(e.cur, x.K, x.V)
+			switch x.K {
+			case "sig":
+				d, ok := firstDecode(x.V)
+				if !ok {
+					continue
+				}
+				if s, ok := e.made[string(d)]; ok {
+					e.sigs = append(e.sigs, s)
+				} else {
+					e.sigs = append(e.sigs, sentSig{raw: d, mutated: true})
+				}
+			case "public-key":
+				if d, ok := firstDecode(x.V); ok {
+					e.keysSent = append(e.keysSent, d)
+				}
+			}
+		}
 		val := buildHeader(ps)
 		other := "Authentication-Info"
 		if hdrName == other {
@@ -462,6 +636,7 @@ func TestClientProvenance(t *testing.T) {
 				}
 				fp = append(fp, fmt.Sprintf("h%d/s%d/%s/%s", cp.Host, cp.Sleep, strings.Join(es.kinds, ","), strings.Join(pd, ",")))
 				labels = append(labels, "flow:"+strings.Join(es.kinds, ">"))
+				labels = append(labels, es.labels...)
 				if err != nil {
 					labels = append(labels, "return:error")
 					if id != "" {
